@@ -92,6 +92,10 @@ func runC19(e *core.Env) {
 		if err := imgG2.InstallLayout(w.layout, "inlayout", false); err != nil {
 			panic(err)
 		}
+		// a blob nothing refers to (left by an interrupted push of some other tool): a dry run has no business removing it
+		if err := gen.LayoutFile(w.layout, regmodel.Digest("sha256", []byte("c19 unreferenced blob")), []byte("c19 unreferenced blob")); err != nil {
+			panic(err)
+		}
 		return w
 	}
 	// scripts
@@ -117,6 +121,9 @@ func runC19(e *core.Env) {
 		`local m = manifest.get("reg.test/proj/app:nosuchtag"); sig("mget-missing-ok")`,
 		`local rl = repo.ls("reg.test"); sig("repos-" .. #rl)`,
 		`local tags = tag.ls("ocidir://$LAYOUT"); sig("ltags-" .. table.concat(tags, "_"))`,
+		// closing a reference the script only read from
+		`local r = reference.new("ocidir://$LAYOUT:inlayout"); local mh = manifest.head(r); r:close(); sig("layout-ref-closed")`,
+		`local r = reference.new("reg.test/proj/app:v1"); local mh = manifest.head(r); reference.close(r); sig("reg-ref-closed")`,
 	}
 	failingReads := []string{
 		`local ml = manifest.getList("reg.test/proj/app:v1"); local c = image.config(ml); local mh = manifest.head("reg.test/proj/lib:v1"); local c2 = image.config(mh); error("no config for a head result")`,
@@ -185,8 +192,12 @@ func runC19(e *core.Env) {
 		sb.WriteString("sig(\"end\")\n")
 		scripts = append(scripts, sb.String())
 	}
-	sample := map[string]any{"scripts": scripts, "parallel": parallel, "failing_script": failing, "script_with_2s_timeout": timeoutScript}
-	e.SetCase(fmt.Sprintf("%v|%d|%d|%s", scripts, parallel, failing, img.Root.Digest), true, sample)
+	// one request at a time per registry (a host setting of the configuration): whatever a script leaves open then
+	// stands in the way of everything after it. Only with scripts run one after the other, where the comparison with
+	// the solo run is made.
+	oneSlot := parallel == 0 && e.Choose("gen", 3, "oneslot") == 2
+	sample := map[string]any{"scripts": scripts, "parallel": parallel, "failing_script": failing, "script_with_2s_timeout": timeoutScript, "reqConcurrent_1": oneSlot}
+	e.SetCase(fmt.Sprintf("%v|%d|%d|%v|%s", scripts, parallel, failing, oneSlot, img.Root.Digest), true, sample)
 
 	var only []int // nil: all scripts
 	runBot := func(w *c19World, dry bool) error {
@@ -195,7 +206,11 @@ func runC19(e *core.Env) {
 		}
 		defer func() { regclient.VerifRegOpts = nil }()
 		var cfg strings.Builder
-		fmt.Fprintf(&cfg, "version: 1\ndefaults:\n  skipDockerConfig: true\n  parallel: %d\n  timeout: 1h\nscripts:\n", parallel)
+		cfg.WriteString("version: 1\n")
+		if oneSlot {
+			cfg.WriteString("creds:\n  - registry: reg.test\n    reqConcurrent: 1\n  - registry: tgt.test\n    reqConcurrent: 1\n")
+		}
+		fmt.Fprintf(&cfg, "defaults:\n  skipDockerConfig: true\n  parallel: %d\n  timeout: 1h\nscripts:\n", parallel)
 		for i, s := range scripts {
 			if only != nil && !slicesContains(only, i) {
 				continue
@@ -341,6 +356,9 @@ func runC19(e *core.Env) {
 			}
 			e.Probe("script-compared-with-solo-run")
 		}
+	}
+	if oneSlot {
+		e.Probe("one-request-slot-per-registry")
 	}
 	if timeoutScript >= 0 {
 		e.Probe("with-script-running-into-its-timeout")
